@@ -81,6 +81,7 @@ func c18Cfrs(r *Run, rng *Rng, mul int) {
 		{Type: "time_period", Criteria: "between"},
 		{Type: "top", Criteria: "=", Value: "abc"},
 		{Type: "cell", Criteria: "yesterday", Value: "5"},
+		{Type: "cell", Criteria: "last 7 days", Value: "5", MinValue: "1", MaxValue: "9", StopIfTrue: true}, // cf_cell_other_roundtrip: no formula stored
 		{Type: "3_color_scale", Criteria: "=", MinType: "min", MidType: "percentile", MaxType: "max", MinColor: "#F8696B", MidColor: "#FFEB84", MaxColor: "#63BE7B"},
 		{Type: "data_bar", Criteria: "=", MinType: "min", MaxType: "max", BarColor: "#638EC6", BarDirection: "context", BarSolid: true},
 	} {
